@@ -103,11 +103,28 @@ class SymX:
                 break
         return states
 
+    def _splice(self, elts, s):
+        """forms of the elements of a display / argument list; *name of a local known to be a tuple display (and *(a, b)) is spliced in"""
+        out = []
+        for e in elts:
+            if isinstance(e, ast.Starred):
+                v = e.value
+                if isinstance(v, ast.Name) and v.id in s.tup:
+                    out.extend(s.tup[v.id])
+                    continue
+                if isinstance(v, (ast.Tuple, ast.List)) and not any(isinstance(x, ast.Starred) for x in v.elts):
+                    out.extend(s.lin.form(x) for x in v.elts)
+                    continue
+                out.append(s.lin.form(v))
+            else:
+                out.append(s.lin.form(e))
+        return out
+
     def _record_calls(self, node, s, stmt):
         """record every Call inside an expression as a 'call' event (inner first)"""
         for sub in _calls_in(node):
             tgt = s.lin._callee_text(sub.func)
-            args = [s.lin.form(a.value if isinstance(a, ast.Starred) else a) for a in sub.args]
+            args = self._splice(sub.args, s)
             kw = {k.arg: s.lin.form(k.value) for k in sub.keywords}
             s.events.append(Event('call', stmt, tgt, args, node=sub, depth=s.depth, extra=kw))
 
@@ -127,7 +144,7 @@ class SymX:
                     return [s]
             tupforms = None
             if isinstance(val, (ast.Tuple, ast.List)):
-                tupforms = [lin.form(e) for e in val.elts]
+                tupforms = self._splice(val.elts, s)
             elif isinstance(val, ast.Name) and val.id in s.tup:
                 tupforms = s.tup[val.id]
             f = lin.form(val)
